@@ -112,14 +112,14 @@ pub fn run_check(prop: &str, tier: &str) -> i32 {
             histex_part(&mut run, tier, &[hp("auth", 3, 4)], &[own], HX);
             run.finish()
         }
-        "C03" => histex_check(prop, tier, &[hp("edit", 4, 5), hp("hyb", 3, 4)], &["C03."], HX),
+        "C03" => histex_check(prop, tier, &[hp("edit", 4, 6), hp("hyb", 3, 5)], &["C03."], HX),
         "C04" => histex_check(prop, tier, &[hp("rot", 4, 5), hp("disrot", 4, 5)], &["C04."], HX),
         "C05" => histex_check(prop, tier, &[hp("rotdel", 4, 5), hp("rot", 3, 4), hp("disrot", 4, 5)], &["C05."], HX),
         "C06" => histex_check(prop, tier, &[hp("dis", 4, 6), hp("disrot", 4, 5)], &["C06."], HX),
         "C07" => crate::ftamper::check_c07(prop, tier),
         "C08" => crate::ftamper::check_c08(prop, tier),
         "C09" => histex_check(prop, tier, &[hp("args", 3, 4), hp("rot", 3, 4), hp("rotdel", 3, 4), hp("dis", 3, 4), hp("failrot", 3, 4), hp("trace", 3, 4), hp("recaps", 2, 3)], &["C09."], HX),
-        "C10" => histex_check(prop, tier, &[hp("failrot", 3, 4), hp("args", 3, 4), hp("trace", 3, 5)], &["C10."], HX),
+        "C10" => histex_check(prop, tier, &[hp("failrot", 3, 5), hp("args", 3, 4), hp("trace", 3, 5)], &["C10."], HX),
         "C11" => {
             let mut run = Run::new(prop, tier, "model_checking");
             histex_part(&mut run, tier, &[hp("rot", 3, 4), hp("edit", 3, 4), hp("rt", 3, 4), hp("hyb", 4, 5)], &["C11."], HX);
@@ -144,7 +144,7 @@ pub fn run_check(prop: &str, tier: &str) -> i32 {
         "C15" => crate::parsex::check(prop, tier),
         "C16" => crate::seqfresh::check(prop, tier),
         "C17" => histex_check(prop, tier, &[hp("trace", 4, 6), hp("rot", 3, 4)], &["C17."], HX),
-        "C18" => histex_check(prop, tier, &[hp("recaps", 3, 4)], &["C18."], HX),
+        "C18" => histex_check(prop, tier, &[hp("recaps", 3, 5)], &["C18."], HX),
         "C19" => crate::sched::check(prop, tier),
         _ => machinery(&format!("no check for {prop}")),
     }
